@@ -95,7 +95,7 @@ func GenerateConcept(r *run.Rand, o ConceptOpts) *ConceptCase {
 					sb.WriteString(strings.ToUpper(wd.Text[:1]) + wd.Text[1:])
 				}
 			}
-			m.Name = sb.String()
+			m.Name = underscoreForm(sb.String(), m.Words)
 			c.Methods = append(c.Methods, m)
 		}
 		cc.Classes = append(cc.Classes, c)
@@ -111,4 +111,29 @@ func (cc *ConceptCase) Names() []string {
 		}
 	}
 	return out
+}
+
+// underscoreForm gives about a quarter of the names an underscore that is legal in a Java identifier and is not
+// a word: a leading one (_refreshInventory), a trailing one (shipOrder_) or a doubled one before the second
+// word (should__rejectOrder). The choice is a function of the name alone (no draw from the case's random
+// stream, so the names of all other cases stay what they were before this form existed).
+func underscoreForm(name string, words []Word) string {
+	h := uint32(2166136261)
+	for i := 0; i < len(name); i++ {
+		h = (h ^ uint32(name[i])) * 16777619
+	}
+	switch h % 12 {
+	case 0:
+		return "_" + name
+	case 1:
+		if !words[len(words)-1].Digit {
+			return name + "_"
+		}
+	case 2:
+		if len(words) > 1 && !words[1].Digit && !words[0].Digit {
+			rest := name[len(words[0].Text):]
+			return words[0].Text + "__" + strings.ToLower(rest[:1]) + rest[1:]
+		}
+	}
+	return name
 }
